@@ -109,7 +109,7 @@ def run(ck):
                      f"device registry trace rejected at event {l}: {ev}; devices={t['types']} uses={t['uses']}",
                      {"seed": ck.seed * 1000003 + idx, "nops": 12 if idx % 3 else 40, "trace": t, "rejected_at": l})
     muts = []
-    for t in traces[:300]:
+    for t in [t for i, t in enumerate(traces[:300]) if i not in res.bad]:
         for k, e in enumerate(t["ev"]):
             if e["op"] == "process" and len(e["got"]) >= 2:
                 a = {"uses": t["uses"], "ev": [dict(x) for x in t["ev"]]}
